@@ -20,6 +20,8 @@ inductive Grp where
 
 def parseGrp (s : String) : Option Grp :=
   if s = "O" then some .overlap else
+  -- K<i>: n Locks of latch i from many goroutines, then n Unlocks: the latch is back where it was
+  if s.startsWith "K" && ((s.drop 1).toString.toNat?).isSome then some (.acts []) else
   match (s.splitOn "|").mapM parseTok with
   | some [.work] => some .work
   | some toks => (toks.mapM fun (t : Tok) => match t with | Tok.act a => some a | Tok.work => none).map Grp.acts
@@ -75,7 +77,15 @@ def parseLine (line : String) : Option (Nat × Nat × List Grp) :=
     | _, _, _ => none
   | _ => none
 
+/-- `tss <concurrency>`: the real TSS pre-parameter generation must be gone after the check that
+    saw the protocol executing (`stopped_means_no_live_worker`: its context is cancelled). -/
+def isTss (line : String) : Bool :=
+  match splitWs line with
+  | ["tss", _] => true
+  | _ => false
+
 def model (line : String) : String :=
+  if isTss line then "quiet" else
   match parseLine line with
   | some (np, nw, gs) =>
     match modelRun [initState np nw] gs with
@@ -113,6 +123,7 @@ def monitorRun (np : Nat) (states : List St) (workers : Nat) : List Grp → List
   | _, _ => "FAIL observation-length"
 
 def monitor (op obs : String) : String :=
+  if isTss op then (if obs = "quiet" then "ok" else s!"FAIL generation-work-not-stopped {obs}") else
   match parseLine op with
   | some (np, nw, gs) => monitorRun np [initState np nw] nw gs (splitList obs)
   | none => "FAIL bad-op"
